@@ -36,14 +36,27 @@ class DftFlow:
         if self.path is None:
             raise AnalysisError(f'propagate_dft never calls dft2 under {label}')
         p = self.path
+        # inside the per-field loop the body may fork (window misses the output); keep the events of
+        # the one body state that transforms, whatever statement the fork happened in
+        events = list(p.events)
+        for lp in p.state.loops:
+            hit = [b for b in lp['states'] if any(e.kind == 'call' and e.data.get('callee') == 'fourier.dft2'
+                                                   for e in b.events[lp['n_pre_events']:])]
+            if hit:
+                mine = {id(e) for e in hit[0].events}
+                others = {id(e) for b in lp['states'] if b is not hit[0] for e in b.events} - mine
+                events = [e for e in events if id(e) not in others]
+                break
+        calls = lambda name: [e for e in events if e.kind == 'call' and e.data.get('callee') == name]
+        self.events = events
         self.ev = {}
         for name in ('fourier.dft2', 'propagate._dft_alpha', 'wavefront.Wavefront.empty', 'field.Field.shift',
                      'extent.intersection_shape', 'extent.intersection_shift', 'extent.intersect',
                      'extent.array_center', 'propagate._mask_shape', 'propagate._mask_shift',
                      'propagate._propagate_ptype'):
-            self.ev[name] = p.calls(name)
-        self.extents = p.calls('extent.array_extent')
-        self.fields = [e for e in p.events if e.kind == 'call' and e.data.get('new') == 'field.Field']
+            self.ev[name] = calls(name)
+        self.extents = calls('extent.array_extent')
+        self.fields = [e for e in events if e.kind == 'call' and e.data.get('new') == 'field.Field']
 
     def one(self, name):
         ev = self.ev[name]
